@@ -265,5 +265,8 @@ def run(chk):
     # that OP_CSV / OP_CLTV refuse (rule shared with C14)
     from . import c14
     from ..report import RuleAlias
+    # the last steps of a direct satisfaction: the template completed element by element, a failed search reported as such
+    from . import c17
+    chk.guard("R01.8", "completion-loop", c17.check_completion_loop, chk, F, "R01.8")
     chk.guard("R01.7", "psbt-locks", c14.check_locks, RuleAlias(chk, {"R14.1": "R01.7"}, "the locks a PSBT finalization "
               "relies on are the spent input's own"), F)
